@@ -83,7 +83,9 @@ def one_dump(ctx, rng, idx, pending):
     fail_at = rng.choice([total_rows, max(1, total_rows - 1), rng.randint(1, total_rows)])
     # the descriptors that reach the dumper may already carry counters (a package loaded from an earlier dump does)
     carried = rng.random() < 0.3
-    case = {'tables': [len(t) for t in tables], 'format': fmt, 'history': history, 'incoming_descriptors_carry_counters': carried, 'first_attempt_fails_at_row': fail_at if history == 'retry-after-failure' else None, 'target': target, 'add_filehash_to_path': filehash,
+    # the target directory may hold an earlier dump of *other* data (same resource names): what is recorded describes the new dump
+    earlier_other = target == 'path' and not cwd_mode and rng.random() < 0.3
+    case = {'target_directory_holds_an_earlier_dump_of_other_data': earlier_other, 'tables': [len(t) for t in tables], 'format': fmt, 'history': history, 'incoming_descriptors_carry_counters': carried, 'first_attempt_fails_at_row': fail_at if history == 'retry-after-failure' else None, 'target': target, 'add_filehash_to_path': filehash,
             'pretty_descriptor': pretty, 'counters': style, 'cwd_holds_an_earlier_dump': cwd_mode}
 
     def run(tag):
@@ -136,6 +138,9 @@ def one_dump(ctx, rng, idx, pending):
                 os.chdir(old)
         else:
             if target == 'path':
+                if earlier_other:
+                    with quiet():
+                        Flow([{'id': 999, 'txt': 'earlier', 'n': 1}], DF.dump_to_path(base, **copy.deepcopy(kw))).process()
                 steps.append(DF.dump_to_path(base, **kw))
             else:
                 os.makedirs(base, exist_ok=True)
